@@ -49,6 +49,8 @@ var reservedNames = map[string]any{
 	"yield":    nil,
 	"case":     nil,
 	"match":    nil,
+	// first parameter of every generated method
+	"self": nil,
 	// builtin types
 	"bool":    nil,
 	"int":     nil,
